@@ -62,6 +62,20 @@ def gen_recipe(rng, big_lengths=False, long_ok=True):
     return r
 
 
+def machine_boundary_recipes():
+    """recipes whose counts (the total a^L, or the count avoiding a required set) are exactly 2^32, 2^63, 2^64 or next to them:
+    the sizes at which an arithmetic shortcut through a machine word would wrap"""
+    out = []
+    for a_chars, req, lengths in (("a", ["b"], (31, 32, 33, 63, 64, 65)),              # a = 2 with the required character
+                                  ("abc", ["d"], (16, 31, 32, 33)),                       # a = 4
+                                  ("0123456789", ["abcdef"], (8, 15, 16, 17)),            # a = 16: 16^16 = 2^64
+                                  ("0123456789abcde", ["f", "0"], (16,)),
+                                  ("0123456789abcdefg", ["0"], (16,))):                   # a = 17, avoiding the required one: 16^16
+        for L in lengths:
+            out.append(Recipe(L, allow_chars=a_chars, require_sets=list(req)))
+    return out
+
+
 def discard(n):
     return (W - 1) - (W - 1) % n
 
